@@ -128,3 +128,4 @@ MANIFEST = {
     "technique": "runtime monitoring: taps on decoder output and decoding strategy, per-step reference-distribution oracle, evaluate round-trip replay",
     "design_ref": "DESIGN.md section 4 / C11",
 }
+MANIFEST["text"] += " Rounds 7-8: beam search as a decoding mode, EAS rollouts (sampled rows + the row forced along the incumbent), DeepACO's training phase (log_likelihood[instance, ant])."
